@@ -154,6 +154,35 @@ def twin_worlds(gd, rng):
     return {"nodes": nodes, "di": di, "bi": bi, "hostile": "twin-worlds"}
 
 
+def embed_wide(gd, rng, total):
+    """``gd`` (the core) embedded in a graph on ``total`` nodes: padding nodes W0.. are interleaved into the core's
+    topological order and wired to the core and to each other at random (acyclic).  -> (wide description, padding names)"""
+    pad = [f"W{i}" for i in range(total - len(gd["nodes"]))]
+    from ..refgraph import RG
+
+    order = [str(v) for v in RG.make(gd["nodes"], [tuple(e) for e in gd["di"]], []).topological_order()]
+    for w in pad:
+        order.insert(rng.randint(0, len(order)), w)
+    pos = {v: i for i, v in enumerate(order)}
+    di = [list(e) for e in gd["di"]]
+    bi = [list(e) for e in gd["bi"]]
+    p_di, p_bi = rng.choice((0.1, 0.2, 0.3)), rng.choice((0.03, 0.08, 0.15))
+    for w in pad:
+        for v in order:
+            if v == w or (v in pad and pos[v] < pos[w]):
+                continue  # pad-pad pairs once
+            a, b = (w, v) if pos[w] < pos[v] else (v, w)
+            if rng.random() < p_di:
+                di.append([a, b])
+            if rng.random() < p_bi:
+                bi.append([a, b] if rng.random() < 0.5 else [b, a])
+    nodes = list(gd["nodes"]) + pad
+    rng.shuffle(nodes)
+    rng.shuffle(di)
+    rng.shuffle(bi)
+    return {"nodes": nodes, "di": di, "bi": bi, "hostile": "wide:" + str(gd.get("hostile"))}, pad
+
+
 def to_nx(gd, mode=None):
     """Build the real y0 NxMixedGraph, honouring the insertion order of the description.  The construction path is a
     workload dimension: the add_* mutators, from_edges, from_str_edges, from_adj and from_str_adj (chosen by a
@@ -328,7 +357,33 @@ def edit_inplace(g, gd, rng):
     bi = [list(e) for e in gd["bi"]]
     order = RG.make(nodes, [tuple(e) for e in di], []).topological_order()
     pos = {v: i for i, v in enumerate(order)}
-    op = rng.choice(["add_di", "add_di", "add_bi", "add_bi", "del_di", "del_bi", "add_node", "new_by_bi", "new_by_di"])
+    op = rng.choice(["add_di", "add_di", "add_bi", "add_bi", "del_di", "del_bi", "add_node", "new_by_bi", "new_by_di",
+                     "rewire_bi", "rewire_bi", "rewire_di"])
+    if op == "rewire_bi" and bi and len(nodes) >= 3:
+        # move a bidirected edge: the node and edge counts stay what they were
+        a, b = bi.pop(rng.randrange(len(bi)))
+        g.undirected.remove_edge(Variable(a), Variable(b))
+        for _ in range(8):
+            c, d = rng.sample(nodes, 2)
+            if [c, d] not in bi and [d, c] not in bi and {c, d} != {a, b}:
+                g.add_undirected_edge(Variable(c), Variable(d))
+                bi.append([c, d])
+                break
+        return {"nodes": nodes, "di": di, "bi": bi, "hostile": "edited"}
+    if op == "rewire_di" and di and len(nodes) >= 3:
+        a, b = di.pop(rng.randrange(len(di)))
+        g.directed.remove_edge(Variable(a), Variable(b))
+        for _ in range(8):
+            c, d = rng.sample(nodes, 2)
+            if pos[c] > pos[d]:
+                c, d = d, c
+            if [c, d] not in di and (c, d) != (a, b):
+                g.add_directed_edge(Variable(c), Variable(d))
+                di.append([c, d])
+                break
+        return {"nodes": nodes, "di": di, "bi": bi, "hostile": "edited"}
+    if op.startswith("rewire"):
+        op = "add_bi"
     if op in ("new_by_bi", "new_by_di") and (len(nodes) >= 8 or not nodes):
         op = "add_bi"
     if op in ("new_by_bi", "new_by_di"):
